@@ -38,32 +38,18 @@ func ruleMEMOCYCLE(c *Ctx, pkgs ...string) {
 					if _, isMap := lk.X.Type().Underlying().(*types.Map); !isMap {
 						continue
 					}
-					// in-progress idiom: a MapUpdate of the same map and key that can be followed by a self call
-					marks := false
+					// memo idiom: the same map is updated under the same key somewhere in f
+					var marksAt []*ssa.MapUpdate
 					for _, b2 := range f.Blocks {
 						for _, in2 := range b2.Instrs {
 							mu, ok := in2.(*ssa.MapUpdate)
 							if !ok || vpath(mu.Map) != vpath(lk.X) || vpath(mu.Key) != vpath(lk.Index) {
 								continue
 							}
-							for _, sc := range selfCalls {
-								if sc.Block() == b2 {
-									after := false
-									for _, x := range b2.Instrs {
-										if x == ssa.Instruction(mu) {
-											after = true
-										}
-										if x == ssa.Instruction(sc) && after {
-											marks = true
-										}
-									}
-								} else if reachesWithout(b2, sc.Block(), nil) {
-									marks = true
-								}
-							}
+							marksAt = append(marksAt, mu)
 						}
 					}
-					if !marks {
+					if len(marksAt) == 0 {
 						continue
 					}
 					var okv *ssa.Extract
@@ -93,7 +79,41 @@ func ruleMEMOCYCLE(c *Ctx, pkgs ...string) {
 							}
 						}
 					}
+					// the miss edge: every self call reachable from it comes after an update of the key
+					unmarked := token.NoPos
+					for _, ref := range *okv.Referrers() {
+						ifi, isIf := ref.(*ssa.If)
+						if !isIf {
+							continue
+						}
+						miss := ifi.Block().Succs[1]
+						for _, sc := range selfCalls {
+							if miss != sc.Block() && !reachesWithout(miss, sc.Block(), nil) {
+								continue
+							}
+							dominated := false
+							for _, mu := range marksAt {
+								if mu.Block() == sc.Block() {
+									for _, x := range sc.Block().Instrs {
+										if x == ssa.Instruction(mu) {
+											dominated = true
+										}
+										if x == ssa.Instruction(sc) {
+											break
+										}
+									}
+								} else if mu.Block().Dominates(sc.Block()) && (miss == mu.Block() || miss.Dominates(mu.Block())) {
+									dominated = true
+								}
+							}
+							if !dominated {
+								unmarked = sc.Pos()
+							}
+						}
+					}
 					switch {
+					case found && unmarked != token.NoPos:
+						c.Bad(rule, key, unmarked, "after a miss the recursive call is made before the key is entered in the memo map: a recursive definition never finds its own key and recurses until the stack overflows, which kills the process")
 					case !found:
 						c.Bad(rule, key, lk.Pos(), "the result of the memo lookup is not branched on directly: a hit must leave the function before the recursive call")
 					case bad:
